@@ -40,3 +40,86 @@ Proof.
   split; [repeat constructor; apply Qc_is_canon; reflexivity | ].
   split; eexists; vm_compute; reflexivity.
 Qed.
+
+(* ---- the C01 one-step law is not a hypothesis for the executable instances: there the conditioning operation IS partial
+   application of the joint, and the initial state is well-formed ---- *)
+Local Open Scope nat_scope.
+Lemma mapi_from_length {A B} (f : nat -> A -> B) l : forall i, length (mapi_from f i l) = length l.
+Proof. induction l as [|x l IH]; intros i; cbn; [reflexivity | rewrite IH; reflexivity]. Qed.
+
+Lemma hybrid_init_wf jt kinds inits scales : length kinds = length inits -> length scales = length inits ->
+  length (g_ss (hybrid_init jt kinds inits scales)) = length (g_cur (hybrid_init jt kinds inits scales)).
+Proof.
+  intros H1 H2. unfold hybrid_init, mapi. cbn [g_ss g_cur]. rewrite mapi_from_length, combine_length, H1, H2. apply Nat.min_id.
+Qed.
+
+Theorem hybrid_run_targets fresh (jt : list vec -> Q) kinds inits scales ns sc ops :
+  length kinds = length inits -> length scales = length inits ->
+  Forall (fun e => e_blk e < length (e_cur e) /\ forall v, e_tgt e v = jt (upd (e_cur e) (e_blk e) v))
+         (r_log (hybrid_run fresh jt kinds inits scales ns sc ops)).
+Proof.
+  intros H1 H2. unfold hybrid_run.
+  set (x := mkRun (hybrid_init jt kinds inits scales) [] []).
+  assert (Hwf : length (g_ss (r_st x)) = length (g_cur (r_st x))) by (apply hybrid_init_wf; assumption).
+  assert (H0 : Forall (ev_conditional (cond jt)) (r_log x)) by constructor.
+  pose proof (run_targets (cond jt) s_pt (creinit fresh) ctrans ctune (nsteps ns) (script sc) ops 0 x Hwf H0) as HA.
+  apply Forall_forall. intros e He. destruct (proj1 (Forall_forall _ _) HA e He) as (Ht & Hb).
+  split; [exact Hb | ]. intros v. rewrite Ht. reflexivity.
+Qed.
+
+Theorem hybrid_run2_targets tol fresh (jt : list vec -> Q) specs kinds inits scales ns sc ops :
+  length kinds = length inits -> length scales = length inits ->
+  Forall (fun e => e_blk e < length (e_cur e) /\
+                   (forall v, e_tgt e v = (jt (upd (e_cur e) (e_blk e) v), upd (e_cur e) (e_blk e) v)) /\
+                   forall sb r, nth (e_blk e) specs None = Some sb ->
+                     ctrans2 tol specs (e_blk e) (e_tgt e) (e_s e) r
+                     = rto_step tol sb (e_blk e) (upd (e_cur e) (e_blk e) (s_pt (e_s e))) (e_s e) r)
+         (r_log (hybrid_run2 tol fresh jt specs kinds inits scales ns sc ops)).
+Proof.
+  intros H1 H2. unfold hybrid_run2.
+  set (x := mkRun (hybrid_init jt kinds inits scales) [] []).
+  assert (Hwf : length (g_ss (r_st x)) = length (g_cur (r_st x))) by (apply hybrid_init_wf; assumption).
+  assert (H0 : Forall (ev_conditional (cond (jt2 jt))) (r_log x)) by constructor.
+  pose proof (run_targets (cond (jt2 jt)) s_pt (creinit2 fresh) (ctrans2 tol specs) ctune (nsteps ns) (script sc) ops 0 x Hwf H0) as HA.
+  apply Forall_forall. intros e He. destruct (proj1 (Forall_forall _ _) HA e He) as (Ht & Hb).
+  split; [exact Hb | ]. split.
+  - intros v. exact (f_equal (fun f => f v) Ht).
+  - intros sb r Hsb. unfold ctrans2. rewrite Hsb.
+    exact (eq_trans (f_equal (fun t => rto_trans tol sb (e_blk e) t (e_s e) r) Ht) (rto_trans_current tol sb jt (e_cur e) (e_blk e) (e_s e) r)).
+Qed.
+
+(* ---- what a passing comparison certifies about one transition of a least-squares block ---- *)
+Local Open Scope Q_scope.
+Theorem rto_step_certifies tol (sb : lsblock) i a s r :
+  s_kind s = KLrto -> s_grad s = [] -> draw_ok (rto_step tol sb i a s r) = true ->
+  let n := length (s_pt s) in
+  let rows := ls_rows (fst sb) i a in
+  let k := length rows in
+  let obs := firstn n (r_vec r) in
+  let z := zip4 rows (firstn k (skipn n (r_vec r))) (firstn k (skipn (n + k) (r_vec r))) (firstn k (skipn (n + k + k) (r_vec r))) in
+  length z = k /\
+  forallb (fun q => cert_ok tol (fst (fst (fst q))) (snd (fst q)) (snd q)) z = true /\
+  exists m, (if snd sb then nnls_draw n (to_noisy z) else rto_draw n (to_noisy z)) = Some m /\
+            s_pt (rto_step tol sb i a s r) = obs /\
+            length (map (fun c : Qc => this c) m) = length obs /\
+            vmaxabs (vsub (map (fun c : Qc => this c) m) obs)
+              <= tol7 * (vmaxabs (map (fun c : Qc => this c) m) + vmaxabs obs + s_scale s).
+Proof.
+  intros Hk Hg. unfold rto_step. cbv zeta.
+  set (n := length (s_pt s)). set (rows := ls_rows (fst sb) i a). set (k := length rows). set (obs := firstn n (r_vec r)).
+  set (z := zip4 rows _ _ _).
+  destruct (Nat.eqb (length z) k) eqn:Hl; cbn [andb].
+  2: { unfold draw_ok, set_all; cbn [s_kind s_grad]. rewrite Hk. discriminate. }
+  destruct (forallb _ z) eqn:Hc.
+  2: { unfold draw_ok, set_all; cbn [s_kind s_grad]. rewrite Hk. discriminate. }
+  destruct (if snd sb then nnls_draw n (to_noisy z) else rto_draw n (to_noisy z)) as [m|] eqn:Hd.
+  2: { unfold draw_ok, set_all; cbn [s_kind s_grad]. rewrite Hk. discriminate. }
+  unfold adopt.
+  destruct (Nat.eqb (length (map (fun c : Qc => this c) m)) (length obs)) eqn:Hlen; cbn [andb].
+  2: { unfold draw_ok, set_all; cbn [s_kind s_grad]. rewrite Hk. destruct (map Qred _); discriminate. }
+  destruct (Qle_bool _ _) eqn:Hclose.
+  2: { unfold draw_ok, set_all; cbn [s_kind s_grad]. rewrite Hk. destruct (map Qred _); discriminate. }
+  intros _. split; [apply Nat.eqb_eq; exact Hl | ]. split; [reflexivity | ].
+  exists m. split; [reflexivity | ]. split; [reflexivity | ]. split; [apply Nat.eqb_eq; exact Hlen | ].
+  apply Qle_bool_iff. exact Hclose.
+Qed.
